@@ -1577,6 +1577,10 @@ func (f *e1func) transfer(st *fstate, n ast.Node, sites *[]*e1site) []*fstate {
 						for _, x := range f.expandDefs(st, rhs[i]) {
 							add = append(add, fact("called", x))
 						}
+						// ... and with the value an interpreted helper returned for the element (eq(H(..), E))
+						for _, x := range rewriteWith(stateAlts(st), rhs[i], 12, true) {
+							add = append(add, fact("called", x))
+						}
 					}
 				}
 			}
